@@ -302,6 +302,52 @@ func propC02(a *Analysis, r *Registry) {
 			if nrec == 0 {
 				r.Fail(rB, name+"/recurrence", b.pos(fn), "expected a recurrence store into the table")
 			}
+			// the table is filled for m = 0 … max(N1,N2) and, for each m, the rows n = 1 … min(N, m)
+			if m != nil && len(stores) > 0 {
+				counter := func(tag string, v *RF, init, bound string) {
+					var pa *Atom
+					for _, at := range v.Atoms(false) {
+						if ph, ok := X.phiOf[at.ID]; ok && X.phiFC[at.ID].isHeaderPhi(ph) {
+							pa = at
+						}
+					}
+					if pa == nil {
+						r.Fail(rB, name+"/"+tag, b.pos(fn), "not driven by a loop counter: "+clip(v.String(), 100))
+						return
+					}
+					pfc := X.phiFC[pa.ID]
+					hdr := X.phiOf[pa.ID].Block()
+					vi, vn := pfc.Recurrence(v)
+					e2 := X.EnvFor(fn, "d", "U")
+					for _, nm := range []string{"N", "M"} {
+						e2.Vars[nm] = env.Vars[nm]
+					}
+					e2.Set("m", m, nil)
+					e2.Set("n", stores[0].n, nil)
+					b.Eq(rB, name+"/"+tag+"/first", b.pos(fn), vi, e2, init)
+					b.EqRF(rB, name+"/"+tag+"/step", b.pos(fn), vn, v.Add(S.Int(1)), "advances by one")
+					_, gc, _, msg := b.loopGuard(pfc, hdr)
+					if msg != "" {
+						r.Fail(rB, name+"/"+tag+"/last", b.pos(fn), msg)
+						return
+					}
+					// (a bound by a minimum may be written as the minimum or as both bounds)
+					okB := false
+					for _, bd := range strings.Split(bound, " | ") {
+						w := e2.MustParse(bd)
+						if gc.Equal(w) || S.BoolEquiv(gc, w) || X.EquivByCases(gc, w, 0) {
+							okB = true
+						}
+					}
+					if okB {
+						r.OK(rB, name+"/"+tag+"/last", b.pos(fn), "runs while "+bound)
+					} else {
+						r.Fail(rB, name+"/"+tag+"/last", b.pos(fn), "the loop runs while "+clip(gc.String(), 300)+", not while "+bound)
+					}
+				}
+				counter("columns m", m, "0", "m<=M")
+				counter("rows n", stores[0].n, "1", "n<=ite(m<N, m, N) | n<=N && n<=m")
+			}
 		})
 	}
 	b.CheckDFloor("D-floor", "stats.(UDist).PMF", "stats.(UDist).CDF", "stats.makeUmemo")
